@@ -241,8 +241,11 @@ def classify(kf, rec):
             return False
     if cl == "hard-break-segment-head-unescaped":
         lines = c.get("out", "").split("\n")
+        src = c.get("parser_input") or doc
+        # once any source line starts or ends with a tag delimiter, lines that look like list items or table rows keep their newlines
+        tagged = bool(re.search(r"(?m)(?:^[ >]*(?:\{%|\{#|\{\{|<!--)|(?:%\}|#\}|\}\}|-->)[ \t]*$)", src))
         for a, b in zip(lines, lines[1:]):
-            if re.search(r"(?<!\\)(?:\\\\)*\\$", a) or re.search(r"(?:%\}|#\}|\}\}|-->)\s*$", a):
+            if re.search(r"(?<!\\)(?:\\\\)*\\$", a) or re.search(r"(?:%\}|#\}|\}\}|-->)\s*$", a) or tagged:
                 pre = re.match(r"^[ >]*", a).group()
                 body = b[len(pre):] if b.startswith(pre) else b.lstrip()
                 if body.split() and MARKER_WORD.match(body.split()[0]):
